@@ -289,6 +289,7 @@ func genWalkScn(r *Rng, nblocks int) *WalkScn {
 	ws.PreNil = r.Chance(0.08)
 	ws.PostNil = !ws.PreNil && r.Chance(0.08)
 	ws.Reentrant = r.Chance(0.15)
+	ws.SameOpts = ws.Reentrant && r.Chance(0.5)
 	n := r.Range(0, 120)
 	p0 := []float64{0, 0.02, 0.1, 0.3, 0.5}[r.Intn(5)]
 	var sb strings.Builder
